@@ -103,6 +103,12 @@ class Conc:
                 c[k] = e[k]
         if "itr" in e:
             c["itr"] = e["itr"]
+        if op == "itr_next":
+            # the caller may supply the packet to be filled: rotate through none / an empty one / one with a foreign item
+            self.nnext = getattr(self, "nnext", 0) + 1
+            mode = (None, "empty", "foreign")[self.nnext % 3]
+            if mode:
+                c["supply"] = mode
         if "code" in e and e["code"] != "NULL":
             c["code"] = self.code(e["code"])
         if "category" in e and e["category"] != "NULL":
@@ -165,6 +171,8 @@ class Conc:
         elif op == "itr_next" and e["rc"] == 0:
             got = {n: tok_of(v) for n, v in o.get("pkt", [])}
             exp = {self.name(n): v for n, v in e["pkt"].items()}
+            if o.get("supply") == "foreign":
+                got = {n: v for n, v in got.items() if n != "_zz_supplied"}      # what the caller put there is the caller's
             if got != exp:
                 d.append((2, "itr_next: packet %s, expected %s" % (got, exp)))
         return d
